@@ -14,7 +14,9 @@ from ..runner import derive_seed
 ID = "C01"
 LEVEL = "exploration"
 RULE = ("scenario = handshake with a correct peer, then 1..12 operations from send(str|bytes|bytearray, opcode), "
-        "send_text, send_bytes, send_binary, ping, pong, send_frame(create_frame(data, opcode, fin)), send_close, "
+        "send_text, send_bytes, send_binary, ping, pong, send_frame(create_frame(data, opcode, fin)) (str also for continuation, "
+        "ping, pong and binary opcodes; one frame object sent twice, with new data, or on a second connection that has another "
+        "key source), send_close, "
         "close; payload lengths boundary-heavy; key source in {default os.urandom seam, custom bytes function, custom "
         "ASCII str function}; trace logging off/on; seeded short-write pattern.  Oracle: the bytes the peer received "
         "during each call decode (reference codec) to exactly one frame with the requested FIN/opcode, RSV=0, MASK=1, "
@@ -23,7 +25,7 @@ RULE = ("scenario = handshake with a correct peer, then 1..12 operations from se
         "implementation) accepts the stream.  Enumerated completely: quick = lengths {0..5,124..129,65533..65538,70000} "
         "x {text, binary} x 3 key sources; thorough = every length 0..70000.  non-trivial = payload length >0 with a "
         "non-zero key; distinct = (operation, opcode, fin, length, len mod 4, key source, trace, short writes)")
-ASSUMPTIONS = ["reference decoder sim/rfc6455.py is correct", "str payloads are used with opcode TEXT / ping / pong only"]
+ASSUMPTIONS = ["reference decoder sim/rfc6455.py is correct", "str is not handed to send_binary / send_bytes / close reasons"]
 BOUNDARY = [0, 1, 2, 3, 4, 5, 124, 125, 126, 127, 128, 129, 65533, 65534, 65535, 65536, 65537, 65538, 70000]
 
 
@@ -104,6 +106,14 @@ def expand(item, seed):
                                    {"op": "send_frame", "kind": "bytes", "len": n, "opcode": 0, "fin": 0, "pseed": n + 1},
                                    {"op": "send_frame", "kind": "bytes", "len": 3, "opcode": 0, "fin": 1, "pseed": 5}],
                            "key": key, "trace": False, "accept": [], "seed": 6}
+            yield {"ops": [{"op": "send_frame", "kind": "bytes", "len": 9, "opcode": 2, "fin": 1, "pseed": 3, "again": "other_connection"},
+                           {"op": "send_frame", "kind": "text", "len": 12, "opcode": 1, "fin": 0, "pseed": 4},
+                           {"op": "send_frame", "kind": "text", "len": 12, "opcode": 0, "fin": 0, "pseed": 5},
+                           {"op": "send_frame", "kind": "text", "len": 3, "opcode": 0, "fin": 1, "pseed": 6},
+                           {"op": "send", "kind": "text", "len": 8, "opcode": 9, "pseed": 7},
+                           {"op": "send", "kind": "text", "len": 8, "opcode": 10, "pseed": 8},
+                           {"op": "send", "kind": "text", "len": 8, "opcode": 2, "pseed": 9}],
+                   "key": key, "trace": False, "accept": [], "seed": 8}
             yield {"ops": [{"op": "send_frame", "kind": "bytes", "len": 7, "opcode": 2, "fin": 1, "pseed": 1, "again": "same"},
                            {"op": "send_frame", "kind": "bytes", "len": 200, "opcode": 2, "fin": 1, "pseed": 2, "again": "new_data"}],
                    "key": key, "trace": False, "accept": [], "seed": 7}
@@ -140,7 +150,9 @@ def gen(rng):
         ps = rng.randrange(1 << 20)
         if in_msg:
             fin = rng.randrange(2)
-            ops.append({"op": "send_frame", "kind": "bytes", "len": _len(rng, False), "opcode": 0, "fin": fin, "pseed": ps})
+            # (the continuation of a text message may be handed over as str too: create_frame's documented example)
+            ops.append({"op": "send_frame", "kind": "text" if rng.random() < 0.3 else "bytes", "len": _len(rng, False) if rng.random() < 0.7 else rng.randrange(1, 40),
+                        "opcode": 0, "fin": fin, "pseed": ps})
             in_msg = not fin
             continue
         if r < 0.35:
@@ -156,7 +168,11 @@ def gen(rng):
             ops.append({"op": rng.choice(("ping", "pong")), "kind": rng.choice(("text", "bytes")),
                         "len": rng.choice((0, 1, 2, 3, 30, 31)), "pseed": ps})
         elif r < 0.8:
-            ops.append({"op": "send", "kind": "bytes", "len": rng.choice((0, 5, 124, 125)), "opcode": rng.choice((9, 10)), "pseed": ps})
+            if rng.random() < 0.4:
+                # str through the generic call with an opcode other than TEXT
+                ops.append({"op": "send", "kind": "text", "len": rng.choice((0, 1, 5, 20, 30)), "opcode": rng.choice((9, 10, 2)), "pseed": ps})
+            else:
+                ops.append({"op": "send", "kind": "bytes", "len": rng.choice((0, 5, 124, 125)), "opcode": rng.choice((9, 10)), "pseed": ps})
         elif r < 0.92:
             opc = rng.choice((1, 2))
             big_frag = big < 2 and rng.random() < 0.15
@@ -169,7 +185,7 @@ def gen(rng):
         else:
             # the same ABNF object written twice (second time optionally with a new payload): two frames, two key draws
             ops.append({"op": "send_frame", "kind": "bytes", "len": _len(rng, False), "opcode": 2, "fin": 1, "pseed": ps,
-                        "again": rng.choice(("same", "new_data"))})
+                        "again": rng.choice(("same", "new_data", "other_connection"))})
     if in_msg:
         ops.append({"op": "send_frame", "kind": "bytes", "len": 1, "opcode": 0, "fin": 1, "pseed": 1})
     if rng.random() < 0.4:
@@ -204,8 +220,8 @@ def run(sc, choices=None):
                     raise InvalidScenario("close args")
             if op["op"] == "send_text" and op.get("kind") != "text":
                 raise InvalidScenario("send_text wants str")
-            if isinstance(val, str) and op["op"] in ("send", "send_frame") and int(op.get("opcode", 1)) != 1:
-                raise InvalidScenario("str with non-text opcode")
+            if op.get("again") not in (None, "same", "new_data", "other_connection"):
+                raise InvalidScenario("again")
             if isinstance(val, str) and op["op"] in ("send_bytes", "send_binary", "send_close", "close"):
                 raise InvalidScenario("str with binary api")
             prepared.append((op, val, raw))
@@ -244,6 +260,13 @@ def run(sc, choices=None):
         c = ws.WebSocket(**kw)
         c.settimeout(5)
         c.connect(f"ws://{HOST}/")
+        c2 = None
+        if any(o.get("again") == "other_connection" for o in ops):
+            # a second connection of the same process, with the opposite kind of key source
+            kw2 = {} if keysrc != "default" else {"get_mask_key": key_bytes}
+            c2 = ws.WebSocket(**kw2)
+            c2.settimeout(5)
+            c2.connect(f"ws://{HOST}/")
         conn = w.net.conns[0]
         peer = peers[0]
         base = len(conn.rx)  # bytes of the HTTP request
@@ -332,7 +355,34 @@ def run(sc, choices=None):
             if name in ("send", "send_text", "send_bytes", "send_binary", "send_frame") and ret != len(got):
                 res.violate("wrong_return_value", ctx, f"{name}(len={n}) returned {ret!r}, frame is {len(got)} bytes")
                 break
-            if name == "send_frame" and op.get("again"):
+            if name == "send_frame" and op.get("again") == "other_connection":
+                # the very same frame object is sent on another connection, which has its own key source
+                conn2 = w.net.conns[1]
+                before = len(conn2.rx)
+                u0 = len(w.urandom_log)
+                k0 = len(keylog)
+                try:
+                    c2.send_frame(frame_obj)
+                except SimAbort:
+                    raise
+                except BaseException as e:  # noqa
+                    res.violate("send_call_raised", ctx + "/same_object_on_other_connection", f"{exc_name(e)}: {e}")
+                    break
+                got = bytes(conn2.rx[before:])
+                fr = R.decode_one(got)
+                d_def = [b for (_, nn, b, _) in w.urandom_log[u0:]]
+                d_cus = keylog[k0:]
+                want_draws, other = (d_def, d_cus) if keysrc != "default" else (d_cus, d_def)
+                if fr is None or fr.end != len(got) or fr.payload != exp_payload or not fr.masked:
+                    res.violate("payload_differs", ctx + "/same_object_on_other_connection", "frame object sent on a second connection: wire does not carry its payload")
+                    break
+                if len(want_draws) != 1 or want_draws[0] != fr.key or other:
+                    res.violate("key_not_single_draw", ctx + "/same_object_on_other_connection",
+                                f"frame object first sent on a connection with key source '{keysrc}', then on one with "
+                                f"{'the default' if keysrc != 'default' else 'a custom'} source: key on wire {fr.key.hex()}, draws of that "
+                                f"connection's source {[d.hex() for d in want_draws][:3]}, draws of the other source {[d.hex() for d in other][:3]}")
+                    break
+            elif name == "send_frame" and op.get("again"):
                 # write the very same frame object once more
                 before = len(conn.rx)
                 u0 = len(w.urandom_log)
